@@ -6,7 +6,7 @@ import cluster_common as cc
 from cluster_common import F
 
 PID = 'C09'
-PREDS = {'definition', 'zero-case', 'range', 'raises'}
+PREDS = {'definition', 'zero-case', 'range', 'raises', 'result-depends-on-history'}
 
 # functions evaluated per kind of input
 FUNCS = {
@@ -92,10 +92,43 @@ def zero_nodes(name, W):
     return None
 
 
+# history / object-reuse probes: sequences of routines sharing ONE argument object (last = routine under test)
+_W2 = [['cc_wd', 'cc_wd'], ['cc_wd', 'trans_wd'], ['trans_wd', 'cc_wd'], ['trans_wd', 'trans_wd'], ['cc_wd', 'trans_wd', 'cc_wd']]
+_WU = [['cc_wu', 'cc_wu'], ['cc_wu', 'trans_wu'], ['trans_wu', 'cc_wu'], ['trans_wu', 'trans_wu'], ['cc_wu', 'cc_wd'], ['cc_wd', 'cc_wu'],
+       ['trans_wd', 'trans_wu'], ['cc_wu', 'cc_wd', 'cc_wu']]
+_SG = [['cc_sign_default', 'cc_sign_default'], ['cc_sign_zhang', 'cc_sign_default'], ['cc_sign_costantini', 'cc_sign_zhang'],
+       ['cc_sign_default', 'cc_sign_costantini'], ['cc_sign_zhang', 'cc_sign_zhang'], ['cc_sign_costantini', 'cc_sign_default', 'cc_sign_costantini']]
+PROBE_SEQS = {
+    'bu': [['cc_bu', 'cc_bu'], ['cc_bu', 'trans_bu'], ['trans_bu', 'cc_bu'], ['trans_bu', 'trans_bu'], ['cc_bd', 'cc_bu'], ['trans_bd', 'trans_bu'],
+           ['cc_wu', 'cc_bu'], ['cc_wd', 'cc_bd'], ['trans_wd', 'trans_bd'], ['cc_bu', 'cc_wu', 'cc_bu']] + _WU + _W2 + _SG[:3],
+    'bd': [['cc_bd', 'cc_bd'], ['cc_bd', 'trans_bd'], ['trans_bd', 'cc_bd'], ['trans_bd', 'trans_bd'], ['cc_wd', 'cc_bd'], ['trans_wd', 'trans_bd'],
+           ['cc_bd', 'cc_wd']] + _W2,
+    'wu': _WU + _W2 + _SG[:2], 'gwu': _WU + _W2,
+    'wd': _W2, 'gwd': _W2,
+    'su': _SG, 'gsu': _SG,
+}
+
+
+def run_probe(task):
+    bct = import_bct()
+    F_ = cc.bct_funcs(bct)
+    W, R = cc.case_mats(task['base'])
+    Wf = cc.fl(W)
+    kind = task['base']['kind']
+    rs = np.random.RandomState(task['pseed'])
+    sym = kind in ('bu', 'wu', 'gwu', 'su', 'gsu')
+    vals = [1.0] if kind in ('bu', 'bd') else ([.125, .5, 1.0] if kind in ('wu', 'wd') else ([.3, .5, .0625] if kind in ('gwu', 'gwd') else [-.125, .5, -1.0]))
+    edit = cc.pick_edit(rs, Wf, sym, vals) if task['edit'] else None
+    d = cc.seq_probe([F_[x] for x in task['seq']], Wf, edit, task['scrib'])
+    return {'probe': True, 'fail': d, 'edit': edit, 'funcs': [], 'fails': [], 'tri': False, 'zeros': 0}
+
+
 _TIMEOUTS = {}     # per worker process: function -> watchdog hits (a hanging routine must not stall the check)
 
 
 def run_case(case):
+    if case['kind'] == 'probe':
+        return run_probe(case)
     bct = import_bct()
     W, R = cc.case_mats(case)
     kind = case['kind']
@@ -230,6 +263,10 @@ def gen_cases(rs, tier):
             add(kind, M, 'malformed-diag')
     cases += cc.add_reps(rs, [c for c in cases if not c['kind'].startswith('diag')], .3 if thorough else .12,
                          ('bu', 'bd'), ('wu', 'wd', 'su', 'sdy', 'gwu', 'gwd', 'gsu'))
+    cases += cc.make_probes(rs, cases, PROBE_SEQS, 520 if thorough else 90)
+    # hidden state carried between calls only shows when a worker runs other routines / sizes before the call under test:
+    # never group by routine or size
+    cases = [cases[int(x)] for x in rs.permutation(len(cases))]
     return cases
 
 
@@ -255,6 +292,14 @@ def main():
     results = pmap(run_case, cases)
     lines, meta, stat = [], [], {}
     for c, r in zip(cases, results):
+        if c['kind'] == 'probe':
+            ck.count('kind:probe'); ck.count('probe:' + '>'.join(c['seq']))
+            ck.case()
+            if r['fail']:
+                ck.violation(cc.PUBLIC[c['seq'][-1]], 'result-depends-on-history',
+                             {'case': c, 'sequence': c['seq'], 'edit(i,j,value,symmetric)': r['edit'], 'returned_arrays_edited': c['scrib'], 'probe': r['fail']},
+                             {'function': c['seq'][-1], 'kind': 'probe'})
+            continue
         W, _ = cc.case_mats(c)
         n = len(W)
         ck.count('kind:' + c['kind']); ck.count('n=%d' % n)
